@@ -2,7 +2,7 @@
    the extracted model, prints one canonical result line.
 
    hist <max_pending> <services> <event>*        (histid: same, with entry ids in the output)
-     services: "-" or name:exec:kind joined by ","   name = w<k> | u<c>; kind 1 = Exec line parses, 0 = it does not
+     services: "-" or name:exec:kind joined by ","   name = w<k> | u<c>; kind 0 = Exec line does not parse, anything else = it does
      events:
        C                                   a connection completes Hello
        K.<sid>                             the same, made by started process sid (no difference for the model)
@@ -58,7 +58,7 @@ let show_name = function Wk k -> "w" ^ string_of_int (int_of_n k) | Uq c -> "u" 
 let parse_services (s : string) : service list =
   if s = "-" then [] else
   List.map (fun t -> match String.split_on_char ':' t with
-    | [n; e; k] -> { sv_name = parse_name n; sv_exec = ni e; sv_parse_ok = (k = "1") }
+    | [n; e; k] -> { sv_name = parse_name n; sv_exec = ni e; sv_parse_ok = (k <> "0") }
     | _ -> failwith "service") (String.split_on_char ',' s)
 
 let err_name = function
